@@ -307,4 +307,296 @@ theorem eq_iff_secNum {a b : Fields} (va : Valid a) (vb : Valid b) :
   rw [eq_iff]
   exact ⟨fun h => by rw [h], secNum_inj va vb⟩
 
+/-! ## no flag is raised by `step` / `civilAdd` / `civilSub` -/
+
+theorem month_hyps (y m : Int) (h1 : 1 ≤ m) (h2 : m ≤ 12) (hy : inI64 y) :
+    (m ≠ 12 → inI64 (y + Int.tdiv m 12)) ∧ inI64 (y + (m - 1) / 12) := by
+  have := tdiv_pos_lit m 12 (by decide)
+  constructor
+  · intro hm
+    rw [show Int.tdiv m 12 = 0 by omega, Int.add_zero]; exact hy
+  · rw [show (m - 1) / 12 = 0 by omega, Int.add_zero]; exact hy
+
+theorem step_ok (t : Tag) (a : Fields) (n : Int) (va : Valid a) (ha : Aligned t a)
+    (hy : inI64 a.y) (hn : inI64 n) (hres : inI64 (Civil.step t a n).val.y) :
+    (Civil.step t a n).ok := by
+  obtain ⟨hy1, hy2⟩ := month_hyps a.y a.m va.1 va.2.1 hy
+  have vd := valid_date va
+  have hp := daysInMonth_pos a.y a.m
+  obtain ⟨a1, a2, a3, a4, a5, a6, a7, a8, a9, a10⟩ := va
+  simp only [inI64, i64min, i64max] at hn
+  cases t
+  · -- second
+    simp only [Civil.step, Ck.bindv, chk64_val] at hres
+    simp only [Civil.step, Ck.bind_ok, chk64_ok, chk64_val]
+    have h1 := cdiv_pos_lit n 60 (by decide)
+    have h2 := cmod_pos_lit n 60 (by decide)
+    refine ⟨by simp only [inI64, i64min, i64max]; omega, by simp only [inI64, i64min, i64max]; omega,
+      nSec_ok _ _ _ _ _ _ hy (by simp only [inI64, i64min, i64max]; omega)
+        (by simp only [inI64, i64min, i64max]; omega) (by simp only [inI64, i64min, i64max]; omega)
+        (by simp only [inI64, i64min, i64max]; omega) hy1 hy2 hres⟩
+  · -- minute
+    simp only [Civil.step, Ck.bindv, chk64_val] at hres
+    simp only [Civil.step, Ck.bind_ok, chk64_ok, chk64_val]
+    have h1 := cdiv_pos_lit n 60 (by decide)
+    have h2 := cmod_pos_lit n 60 (by decide)
+    refine ⟨by simp only [inI64, i64min, i64max]; omega, by simp only [inI64, i64min, i64max]; omega,
+      nMin_ok _ _ _ _ _ _ _ hy (by simp only [inI64, i64min, i64max]; omega)
+        (by simp only [inI64, i64min, i64max]; omega) (by omega)
+        (by simp only [inI64, i64min, i64max]; omega) hy1 hy2 hres⟩
+  · -- hour
+    simp only [Civil.step, Ck.bindv, chk64_val] at hres
+    simp only [Civil.step, Ck.bind_ok, chk64_ok, chk64_val]
+    have h1 := cdiv_pos_lit n 24 (by decide)
+    have h2 := cmod_pos_lit n 24 (by decide)
+    refine ⟨by simp only [inI64, i64min, i64max]; omega, by simp only [inI64, i64min, i64max]; omega,
+      nHour_ok _ _ _ _ _ _ _ hy (by simp only [inI64, i64min, i64max]; omega) (by omega)
+        (by simp only [inI64, i64min, i64max]; omega) hy1 hy2 hres⟩
+  · -- day
+    simp only [Civil.step] at hres ⊢
+    exact nDay_ok _ _ _ _ _ _ _ a1 a2 hy (by simp only [inI64, i64min, i64max]; omega)
+      (by simp only [inI64, i64min, i64max]; omega) hres
+  · -- month
+    have hres' := hres
+    simp only [Aligned] at ha
+    rw [step_month a n ⟨a1, a2, a3, a4, a5, a6, a7, a8, a9, a10⟩ ha.2.2.2] at hres'
+    simp only [Civil.step, Ck.bindv, chk64_val] at hres
+    simp only [Civil.step, Ck.bind_ok, chk64_ok, chk64_val]
+    have h1 := cdiv_pos_lit n 12 (by decide)
+    have h2 := cmod_pos_lit n 12 (by decide)
+    have h3 := tdiv_pos_lit (a.m + cmod n 12) 12 (by decide)
+    simp only [inI64, i64min, i64max] at hy hres'
+    have hya : inI64 (a.y + cdiv n 12) := by simp only [inI64, i64min, i64max]; omega
+    refine ⟨hya, by simp only [inI64, i64min, i64max]; omega,
+      nMon_ok _ _ _ _ _ _ _ hya (by simp only [inI64, i64min, i64max]; omega) (by decide)
+        (fun hne => by simp only [inI64, i64min, i64max]; omega)
+        (by simp only [inI64, i64min, i64max]; omega) hres⟩
+  · -- year
+    simp only [Civil.step, Ck.bindv, chk64_val, Ck.pure_val] at hres
+    simp only [Civil.step, Ck.bind_ok, chk64_ok, Ck.pure_ok, and_true]
+    exact hres
+
+theorem align_y (t : Tag) (f : Fields) : (Civil.align t f).y = f.y := by
+  cases t <;> rfl
+
+theorem civilAdd_ok (t : Tag) (a : Fields) (n : Int) (va : Valid a) (ha : Aligned t a)
+    (hy : inI64 a.y) (hn : inI64 n) (hres : inI64 (Civil.civilAdd t a n).val.y) :
+    (Civil.civilAdd t a n).ok := by
+  unfold Civil.civilAdd at hres ⊢
+  rw [Ck.map_val, align_y] at hres
+  rw [Ck.map_ok]
+  exact step_ok t a n va ha hy hn hres
+
+theorem civilSub_ok (t : Tag) (a : Fields) (n : Int) (va : Valid a) (ha : Aligned t a)
+    (hy : inI64 a.y) (hn : inI64 n) (hres : inI64 (Civil.civilSub t a n).val.y) :
+    (Civil.civilSub t a n).ok := by
+  unfold Civil.civilSub at hres ⊢
+  by_cases hmin : n = i64min
+  · subst hmin
+    simp only [bne_self_eq_false, Bool.false_eq_true, if_false, Ck.bindv, chk64_val, Ck.map_val,
+      align_y] at hres
+    simp only [bne_self_eq_false, Bool.false_eq_true, if_false, Ck.bind_ok, chk64_ok, chk64_val,
+      Ck.map_ok]
+    obtain ⟨v1, al1, u1⟩ := step_spec t a (-(i64min + 1)) va ha
+    obtain ⟨v2, al2, u2⟩ := step_spec t _ 1 v1 al1
+    have hle1 := year_le_of_unitNum_le t va v1 ha al1 (by rw [u1]; simp only [i64min]; omega)
+    have hle2 := year_le_of_unitNum_le t v1 v2 al1 al2 (by rw [u2]; omega)
+    have hy1 : inI64 (Civil.step t a (-(i64min + 1))).val.y := by
+      simp only [inI64] at hy hres ⊢; omega
+    exact ⟨by decide, by decide, step_ok t a _ va ha hy (by decide) hy1,
+      step_ok t _ 1 v1 al1 hy1 (by decide) hres⟩
+  · have hne : (n != i64min) = true := by simpa using hmin
+    simp only [hne, if_true, Ck.bindv, chk64_val, Ck.map_val, align_y] at hres
+    simp only [hne, if_true, Ck.bind_ok, chk64_ok, chk64_val, Ck.map_ok]
+    have hneg : inI64 (-n) := by
+      simp only [inI64, i64min, i64max] at hn hmin ⊢; omega
+    exact ⟨hneg, step_ok t a (-n) va ha hy hneg hres⟩
+
+/-! ## no flag is raised by `difference` -/
+
+theorem scaleAdd_ok (v f a : Int) (hf : 0 < f) (hf2 : f ≤ 1000) (ha : -f < a ∧ a < f)
+    (hv : inI64 v) (hr : inI64 (v * f + a)) : (Civil.scaleAdd v f a).ok := by
+  unfold Civil.scaleAdd
+  simp only [inI64, i64min, i64max] at hv hr
+  split
+  · next h =>
+    have hP : v * f ≤ (-1) * f := Int.mul_le_mul_of_nonneg_right (by omega) (by omega)
+    simp only [Ck.bind_ok, chk64_ok, chk64_val, Int.add_mul, Int.one_mul, inI64, i64min, i64max]
+    generalize v * f = P at *
+    omega
+  · next h =>
+    have hP : 0 ≤ v * f := Int.mul_nonneg (by omega) (by omega)
+    simp only [Ck.bind_ok, chk64_ok, chk64_val, Int.sub_mul, Int.one_mul, inI64, i64min, i64max]
+    generalize v * f = P at *
+    omega
+
+theorem daysBeforeMonth_bound (y m : Int) (h1 : 1 ≤ m) (h2 : m ≤ 12) :
+    0 ≤ daysBeforeMonth y m ∧ daysBeforeMonth y m ≤ 335 := by
+  simp only [daysBeforeMonth, cumDays]
+  split <;> omega
+
+theorem ite_ok {c : Prop} [Decidable c] (x y : Ck α) :
+    (if c then x else y).ok ↔ if c then x.ok else y.ok := by
+  split <;> rfl
+
+theorem ymdOrd_ok (y m d : Int) (hy : -400 < y ∧ y < 400) (h1 : 1 ≤ m) (h2 : m ≤ 12)
+    (hd : 1 ≤ d ∧ d ≤ 31) : (Civil.ymdOrd y m d).ok := by
+  unfold Civil.ymdOrd
+  simp only [Ck.bind_ok, chk64_ok, chk64_val, Ck.pure_val, ite_val, ite_ok, Ck.pure_ok]
+  generalize hE : (if m ≤ 2 then y - 1 else y) = E
+  have hEb : -401 ≤ E ∧ E < 400 := by omega
+  have he := era_floor E
+  simp only [ge_iff_le] at he ⊢
+  rw [he]
+  have hdoy := doy_val m h1 h2
+  have hcm : 0 ≤ cumDays m ∧ cumDays m ≤ 334 := by unfold cumDays; omega
+  generalize cdiv (153 * (m + (if m > 2 then -3 else 9)) + 2) 5 = doy at hdoy ⊢
+  have hyoe : E - E / 400 * 400 = E % 400 := by omega
+  rw [hyoe]
+  have h4 := cdiv_pos_lit (E % 400) 4 (by decide)
+  have h100 := cdiv_pos_lit (E % 400) 100 (by decide)
+  rw [h4, h100]
+  simp only [inI64, i64min, i64max]
+  refine ⟨?_, ?_, ?_, ?_, ?_, ?_, ?_, ?_, ?_, ?_, ?_⟩ <;> (try split) <;> first | trivial | omega
+
+theorem ddAdjust_ok (c4 delta k : Int) (hk : c4 = 400 * k)
+    (hc : -100000000000000000 ≤ c4 ∧ c4 ≤ 100000000000000000)
+    (hdl : -292194 < delta ∧ delta < 292194) (hD : inI64 (146097 * k + delta)) :
+    (ddAdjust c4 delta).ok ∧ inI64 (cdiv (ddAdjust c4 delta).val.1 400 * 146097) := by
+  unfold ddAdjust
+  simp only [inI64, i64min, i64max] at hD ⊢
+  split
+  · simp only [Ck.bind_ok, chk64_ok, chk64_val, Ck.pure_ok, and_true, Ck.bindv, Ck.pure_val, inI64,
+      i64min, i64max, cdiv_pos_lit _ 400 (by decide)]
+    omega
+  · split
+    · simp only [Ck.bind_ok, chk64_ok, chk64_val, Ck.pure_ok, and_true, Ck.bindv, Ck.pure_val, inI64,
+        i64min, i64max, cdiv_pos_lit _ 400 (by decide)]
+      omega
+    · simp only [Ck.pure_ok, true_and, Ck.pure_val, cdiv_pos_lit _ 400 (by decide)]
+      omega
+
+/-- a day difference bounds the year difference -/
+theorem year_diff_bound {y1 m1 d1 y2 m2 d2 : Int} (v1 : ValidDate y1 m1 d1) (v2 : ValidDate y2 m2 d2)
+    (h : y2 ≤ y1) : 365 * (y1 - y2) - 366 ≤ dayNum y1 m1 d1 - dayNum y2 m2 d2 := by
+  have r1 := dayOfYear_range _ _ _ v1
+  have r2 := dayOfYear_range _ _ _ v2
+  have c2 := daysInYear_cases y2
+  have hm := leapsThrough_mono (y2 - 1) (y1 - 1) (by omega)
+  simp only [dayNum, daysBeforeYear]
+  omega
+
+/-- dates in the years `-399 … 399` are less than 800 years = `2 * 146097` days apart -/
+theorem dayNum_small (y m d : Int) (hy : -400 < y ∧ y < 400) (h1 : 1 ≤ m) (h2 : m ≤ 12)
+    (hd : 1 ≤ d ∧ d ≤ 31) : -865260 ≤ dayNum y m d ∧ dayNum y m d ≤ -573431 := by
+  have hb := daysBeforeMonth_bound y m h1 h2
+  simp only [dayNum, daysBeforeYear, leapsThrough]
+  omega
+
+
+theorem dayDifference_ok (y1 m1 d1 y2 m2 d2 : Int) (v1 : ValidDate y1 m1 d1)
+    (v2 : ValidDate y2 m2 d2) (hy1 : inI64 y1) (hy2 : inI64 y2)
+    (hD : inI64 (dayNum y1 m1 d1 - dayNum y2 m2 d2)) :
+    (Civil.dayDifference y1 m1 d1 y2 m2 d2).ok := by
+  obtain ⟨a1, a2, a3, a4⟩ := v1
+  obtain ⟨b1, b2, b3, b4⟩ := v2
+  have p1 := daysInMonth_pos y1 m1
+  have p2 := daysInMonth_pos y2 m2
+  have e1 := cdiv_cmod y1 400
+  have e2 := cdiv_cmod y2 400
+  have r1 : -400 < cmod y1 400 ∧ cmod y1 400 < 400 := by
+    rw [cmod_pos_lit _ 400 (by decide)]; omega
+  have r2 : -400 < cmod y2 400 ∧ cmod y2 400 < 400 := by
+    rw [cmod_pos_lit _ 400 (by decide)]; omega
+  have g1 : (0 ≤ y1 → 0 ≤ cmod y1 400) ∧ (y1 ≤ 0 → cmod y1 400 ≤ 0) := by
+    rw [cmod_pos_lit _ 400 (by decide)]; omega
+  have g2 : (0 ≤ y2 → 0 ≤ cmod y2 400) ∧ (y2 ≤ 0 → cmod y2 400 ≤ 0) := by
+    rw [cmod_pos_lit _ 400 (by decide)]; omega
+  have s1 := dayNum_small (cmod y1 400) m1 d1 r1 a1 a2 (by omega)
+  have s2 := dayNum_small (cmod y2 400) m2 d2 r2 b1 b2 (by omega)
+  have o1 := ymdOrd_ok (cmod y1 400) m1 d1 r1 a1 a2 (by omega)
+  have o2 := ymdOrd_ok (cmod y2 400) m2 d2 r2 b1 b2 (by omega)
+  have f1 := dayNum_add_400_mul (cmod y1 400) (cdiv y1 400) m1 d1
+  have f2 := dayNum_add_400_mul (cmod y2 400) (cdiv y2 400) m2 d2
+  rw [show cmod y1 400 + 400 * cdiv y1 400 = y1 by omega] at f1
+  rw [show cmod y2 400 + 400 * cdiv y2 400 = y2 by omega] at f2
+  have yb : -30000000000000000 ≤ y1 - y2 ∧ y1 - y2 ≤ 30000000000000000 := by
+    simp only [inI64, i64min, i64max] at hD
+    by_cases h : y2 ≤ y1
+    · have := year_diff_bound ⟨a1, a2, a3, a4⟩ ⟨b1, b2, b3, b4⟩ h; omega
+    · have := year_diff_bound ⟨b1, b2, b3, b4⟩ ⟨a1, a2, a3, a4⟩ (by omega); omega
+  rw [dayDifference_eq]
+  simp only [Ck.bind_ok, chk64_ok, chk64_val, ymdOrd_val _ _ _ a1 a2, ymdOrd_val _ _ _ b1 b2]
+  have hadj := ddAdjust_ok (y1 - cmod y1 400 - (y2 - cmod y2 400))
+    (dayNum (cmod y1 400) m1 d1 - dayNum (cmod y2 400) m2 d2) (cdiv y1 400 - cdiv y2 400)
+    (by omega) (by omega) (by omega)
+    (by simp only [inI64, i64min, i64max] at hD ⊢; omega)
+  have hval := ddAdjust_val (y1 - cmod y1 400 - (y2 - cmod y2 400))
+    (dayNum (cmod y1 400) m1 d1 - dayNum (cmod y2 400) m2 d2) (cdiv y1 400 - cdiv y2 400)
+    (by omega)
+  simp only [inI64, i64min, i64max] at hy1 hy2 hD
+  refine ⟨?_, ?_, ?_, o1, o2, ?_, hadj.1, hadj.2, ?_⟩
+  · simp only [inI64, i64min, i64max]; omega
+  · simp only [inI64, i64min, i64max]; omega
+  · simp only [inI64, i64min, i64max]; omega
+  · simp only [inI64, i64min, i64max]; omega
+  · rw [hval]; simp only [inI64, i64min, i64max]; omega
+
+theorem difference_ok (t : Tag) (a b : Fields) (va : Valid a) (vb : Valid b)
+    (ha : Aligned t a) (hb : Aligned t b) (hya : inI64 a.y) (hyb : inI64 b.y)
+    (hr : inI64 (unitNum t a - unitNum t b)) : (Civil.difference t a b).ok := by
+  have hdv := dayDifference_val a.y a.m a.d b.y b.m b.d va.1 va.2.1 vb.1 vb.2.1
+  have hdo := dayDifference_ok a.y a.m a.d b.y b.m b.d (valid_date va) (valid_date vb) hya hyb
+  obtain ⟨a1, a2, a3, a4, a5, a6, a7, a8, a9, a10⟩ := va
+  obtain ⟨b1, b2, b3, b4, b5, b6, b7, b8, b9, b10⟩ := vb
+  cases t
+  · -- second
+    simp only [unitNum, secNum] at hr
+    simp only [Civil.difference, Ck.bind_ok, scaleAdd_val, hdv]
+    generalize dayNum a.y a.m a.d = Da at *
+    generalize dayNum b.y b.m b.d = Db at *
+    simp only [inI64, i64min, i64max] at hr
+    refine ⟨hdo (by simp only [inI64, i64min, i64max]; omega), ?_, ?_, ?_⟩
+    · exact scaleAdd_ok _ 24 _ (by decide) (by decide) (by omega)
+        (by simp only [inI64, i64min, i64max]; omega) (by simp only [inI64, i64min, i64max]; omega)
+    · exact scaleAdd_ok _ 60 _ (by decide) (by decide) (by omega)
+        (by simp only [inI64, i64min, i64max]; omega) (by simp only [inI64, i64min, i64max]; omega)
+    · exact scaleAdd_ok _ 60 _ (by decide) (by decide) (by omega)
+        (by simp only [inI64, i64min, i64max]; omega) (by simp only [inI64, i64min, i64max]; omega)
+  · -- minute
+    simp only [unitNum] at hr
+    simp only [Civil.difference, Ck.bind_ok, scaleAdd_val, hdv]
+    generalize dayNum a.y a.m a.d = Da at *
+    generalize dayNum b.y b.m b.d = Db at *
+    simp only [inI64, i64min, i64max] at hr
+    refine ⟨hdo (by simp only [inI64, i64min, i64max]; omega), ?_, ?_⟩
+    · exact scaleAdd_ok _ 24 _ (by decide) (by decide) (by omega)
+        (by simp only [inI64, i64min, i64max]; omega) (by simp only [inI64, i64min, i64max]; omega)
+    · exact scaleAdd_ok _ 60 _ (by decide) (by decide) (by omega)
+        (by simp only [inI64, i64min, i64max]; omega) (by simp only [inI64, i64min, i64max]; omega)
+  · -- hour
+    simp only [unitNum] at hr
+    simp only [Civil.difference, Ck.bind_ok, hdv]
+    generalize dayNum a.y a.m a.d = Da at *
+    generalize dayNum b.y b.m b.d = Db at *
+    simp only [inI64, i64min, i64max] at hr
+    refine ⟨hdo (by simp only [inI64, i64min, i64max]; omega), ?_⟩
+    exact scaleAdd_ok _ 24 _ (by decide) (by decide) (by omega)
+      (by simp only [inI64, i64min, i64max]; omega) (by simp only [inI64, i64min, i64max]; omega)
+  · -- day
+    simp only [unitNum] at hr
+    simp only [Civil.difference]
+    exact hdo hr
+  · -- month
+    simp only [unitNum] at hr
+    simp only [Civil.difference, Ck.bind_ok, chk64_ok, chk64_val]
+    simp only [inI64, i64min, i64max] at hr
+    refine ⟨by simp only [inI64, i64min, i64max]; omega, ?_⟩
+    exact scaleAdd_ok _ 12 _ (by decide) (by decide) (by omega)
+      (by simp only [inI64, i64min, i64max]; omega) (by simp only [inI64, i64min, i64max]; omega)
+  · -- year
+    simp only [unitNum] at hr
+    simp only [Civil.difference, chk64_ok]
+    exact hr
+
 end Cctz
